@@ -1,6 +1,7 @@
 import CoapVerif.Lemmas.MsgLayer
 import CoapVerif.Lemmas.MsgLayerX
 import CoapVerif.Lemmas.MsgHold
+import CoapVerif.Lemmas.MsgLedger
 /-
 C08 — NSTART: a session never has more than NSTART Confirmable messages in flight; messages beyond the limit
 (and anything submitted before the session is established) are held and later transmitted exactly once each, in
@@ -374,7 +375,60 @@ theorem failure_dtls (l : L) (s : Nat) (hs : s < l.sess.length) :
   · simp only [disconnectP]; rw [getS_setS_same hlen]
   · exact disconnect_est l s hs
 
+/-! ### "in flight (sent and neither acknowledged, reset nor given up)": a message leaves only when its exchange is concluded
+
+`led s mid gT l` (Lemmas/MsgLedger.lean) = number of Confirmables of session `s` with message id `mid` in the send queue
+(in flight) + in the delay queue of `s` (held; a retransmission goes back there while the session is not established) +
+number of TOO_MANY_RETRIES reports for (`s`, `mid`) (given up).  `Concludes l s mid e`: the event `e` is an ACK (empty,
+invalid code, piggy-backed response) or RST carrying that id, a separate response carrying the token of a message with that id,
+or the failure of session `s`. -/
+
+/-- (8) For EVERY event that does not conclude the exchange of message (`s`, `mid`) - submissions, timer runs with
+retransmissions and give-ups of any message, ACK / RST / responses for OTHER messages incl. duplicated and stray piggy-backed
+responses carrying the SAME token, ICMP errors, keepalive, other sessions failing - the ledger of that message does not
+decrease: a Confirmable that is in flight stays in the send queue, counted by `con_active` (theorems (1), (2)), or is
+reported to the NACK handler as given up; it is never dropped silently, so its slot is never handed to another message
+while it is "sent and neither acknowledged, reset nor given up". -/
+theorem in_flight_until_concluded (lx : LX) (e : EvX) (s mid : Nat) (hw : WF lx.l) (hs : s < lx.l.sess.length)
+    (hn : ¬ Concludes lx.l s mid e) : led s mid gT lx.l ≤ led s mid gT (stepX lx e).l :=
+  led_stepX s mid lx e hw hs hn
+
+/-- (8) along runs: from any reachable state (after `evs1`, any mix of UDP and DTLS sessions), as long as no event of
+`evs2` concludes the message, its ledger does not decrease. -/
+theorem in_flight_until_concluded_run (ss : List Sess) (ds : List Bool) (t0 : Nat) (evs1 evs2 : List EvX) (s mid : Nat)
+    (hss : ∀ se ∈ ss, se.conActive = 0 ∧ se.delayq = [] ∧ se.nstart ≤ 255) (hs : s < ss.length)
+    (hn : ∀ (pre : List EvX) (e : EvX) (post : List EvX), evs2 = pre ++ e :: post →
+      ¬ Concludes (runX (runX (initXP t0 ss ds) evs1) pre).l s mid e) :
+    led s mid gT (runX (initXP t0 ss ds) evs1).l ≤ led s mid gT (runX (runX (initXP t0 ss ds) evs1) evs2).l := by
+  have hw := wfX_run evs1 _ (show WF (initXP t0 ss ds).l from wf_init t0 ss hss)
+  have hl := (runX_star evs1 (initXP t0 ss ds) s hs).len
+  exact led_runX s mid evs2 _ hw (by rw [hl]; exact hs) hn
+
 /-! ### non-vacuity of the round-4 statements -/
+
+/-- (8) on the scenario of (7'): message 102 (token 7, in flight after A's response) has ledger 1; the duplicate of A's
+response - same token 7 - does not conclude it (the hypothesis of (8) holds) and its ledger is still 1: it is still in the
+send queue.  (In the seeded variant C08-12 the ledger drops to 0 here.) -/
+example :
+    let lx := runX (initX 1000 [{ nstart := 1 }])
+      [.submitT 0 true 101 0 7, .submitT 0 true 102 0 7, .submitT 0 true 103 0 7, .rxAckP 0 101 7]
+    ¬ Concludes lx.l 0 102 (.rxAckP 0 101 7) ∧ led 0 102 gT lx.l = 1 ∧ led 0 102 gT (stepX lx (.rxAckP 0 101 7)).l = 1 ∧
+    (stepX lx (.rxAckP 0 101 7)).l.q.nodes.countP (pq 0 102 gT) = 1 := by
+  refine ⟨fun h => absurd h.2 (by decide), by decide, by decide, by decide⟩
+
+/-- (8) is not vacuous for a separate response either: NSTART = 2, message 1 (token 1) and message 2 (token 7) in flight;
+a NON response with token 7 does not conclude message 1, whose ledger stays 1, and concludes message 2 -/
+example :
+    let lx := runX (initX 1000 [{ nstart := 2 }]) [.base (.submit 0 true 1 0), .submitT 0 true 2 0 7]
+    ¬ Concludes lx.l 0 1 (.base (.rxNon 0 900 7)) ∧ Concludes lx.l 0 2 (.base (.rxNon 0 900 7)) ∧
+    led 0 1 gT (stepX lx (.base (.rxNon 0 900 7))).l = 1 ∧ led 0 2 gT (stepX lx (.base (.rxNon 0 900 7))).l = 0 := by
+  refine ⟨?_, ?_, by decide, by decide⟩
+  · intro h
+    rcases h.2 with ⟨n, hn, _, h2, h3⟩ | ⟨n, hn, _⟩
+    · revert n; decide
+    · revert n; decide
+  · exact ⟨rfl, Or.inl (by decide)⟩
+
 
 /-- the scenario of (7'): NSTART = 1, three Confirmables A, B, C (101, 102, 103) share token 7.  A is answered by
 a piggy-backed response: B goes out.  The network's duplicate of that response arrives while B is unacknowledged:
